@@ -174,11 +174,11 @@ def main(tier, args):
     # (sweep, number of processes, expect file)
     if thorough:
         plan = [("b64-rt", 16, ""), ("b64-dec", 16, ""), ("hex-rt", 16, ""), ("hex-dec", 16, ""), ("url-rt", 16, ""), ("url-dec", 16, ""),
-                ("sint", 1, ""), ("ser", 8, ""), ("crc", 1, crc_f), ("md5", 8, md5_f), ("aes", 1, aes_f)]
+                ("sint", 1, ""), ("ser", 8, ""), ("crc", 1, crc_f), ("md5", 8, md5_f), ("aes", 16, aes_f)]
         deadline = 1200
     else:
-        plan = [("b64-rt", 2, ""), ("b64-dec", 3, ""), ("hex-rt", 2, ""), ("hex-dec", 2, ""), ("url-rt", 1, ""), ("url-dec", 1, ""),
-                ("sint", 1, ""), ("ser", 1, ""), ("crc", 1, crc_f), ("md5", 1, md5_f), ("aes", 1, aes_f)]
+        plan = [("b64-dec", 5, ""), ("url-dec", 3, ""), ("b64-rt", 1, ""), ("hex-rt", 1, ""), ("hex-dec", 2, ""), ("url-rt", 1, ""),
+                ("sint", 1, ""), ("ser", 1, ""), ("crc", 1, crc_f), ("md5", 1, md5_f), ("aes", 2, aes_f)]
         deadline = 60
     only = getattr(args, "only", None)
     cmds = []
